@@ -107,7 +107,7 @@ def check_rw(chk, tu):
             off = None
             if positional:
                 off = unk('offset', pts[3])
-            for count in (0, 1, 3):
+            for count in ((0, 1, 3) if chk.tier == 'quick' else (0, 1, 2, 3, 4, 6)):
                 paths = io_paths(tu, f['name'], count, offset=off)
                 inst = '%s/%s[n=%d]' % (gen, imp, count)
                 site = imp
